@@ -18,14 +18,16 @@ MANIFEST = {
             "stamp/admit in the three send_frame methods, the reset and is_up shapes regenerated from the source (Gen/Link.lean, "
             "obligations C18_gen_*) + differential rig R-link that records the real call tree of send_frame on generated networks "
             "(tight bandwidths, ARP+ping, floods through switches, router hops, wireless, FTP, bursts, interface toggles) and replays it "
-            "through the model, comparing verdicts and loads as exact byte counts.",
+            "through the model, comparing verdicts and loads as exact byte counts. Deepened: the data carried per link / sent per channel is "
+            "proved within capacity for every tick of every history with no side condition (F-40 repaired), per frequency name when two names "
+            "share a hz, and the far interface's answer is compared with C08's acceptance model.",
     "note": "C18-specific: frame sizes (JSON length of the frame, F-9) and the far interface's accept/reject answer are inputs to the "
             "model, not predicted; float arithmetic is outside the model and is checked exact by the rig on every load it reads.",
     "technique": "Lean 4 theorems over an executable model of link/airspace accounting with nested transmissions; model tied by "
                  "regenerated tables and a differential rig",
     "design_ref": "5/C18",
 }
-MODULES = ["PrimaiteModel.Props.C18"]
+MODULES = ["PrimaiteModel.Props.C18", "PrimaiteModel.Props.C18Accept"]
 EXE = "drv_c18"
 
 
@@ -47,8 +49,6 @@ def _oracle_sig(o: dict) -> dict:
     sig = {"kind": o["kind"], "medium": o.get("medium", "-")}
     if o["kind"] == "load-exceeds-bandwidth":
         sig["nested"] = bool(o.get("nested", False))
-    if o["kind"] == "carried-data-exceeds-bandwidth":
-        sig["cause"] = o.get("cause", "unexplained")
     return sig
 
 
@@ -77,8 +77,9 @@ def run(ctx: Ctx):
     ctx.oblige("rig unit = Gen.Link.bytesPerMbit", "extractor", rig.UNIT == x_link._bytes_per_mbit(), f"{rig.UNIT}")
     ctx.cov["rule"] = ("case = (topology in {two hosts, 2-4 hosts on a switch, two switches with a trunk, hosts behind a router, hosts behind "
                        "2-3 wireless routers on one or two frequencies}, per-link bandwidth / per-frequency capacity from below one frame to "
-                       "100 Mbit, op sequence of ping / arp / raw bursts (unicast, broadcast) / ftp / interface disable-enable / tick / "
-                       "tripwire (interface toggled during a delivery)); non-trivial when some send is refused for capacity or link state, "
+                       "100 Mbit (wireless: optionally two frequency names of different capacity on one hz), op sequence of ping / arp / raw "
+                       "bursts (unicast, broadcast) / ftp / interface disable-enable / tick / tripwire (interface toggled during a delivery by a "
+                       "test double) / rcmd (interface toggled during a delivery by the real Terminal executing a remote command)); non-trivial when some send is refused for capacity or link state, "
                        "or the call tree nests at least two sends deep; distinct by canonical JSON of topology and ops")
     cases = []
     for f in sorted((VERIF / "corpus" / "C18").glob("*.json")):
@@ -129,11 +130,20 @@ def run(ctx: Ctx):
                 elif e["t"] in ("E", "F"):
                     ctx.count("iface-toggle:" + ("wired" if e["t"] == "E" else "wireless"))
         # toggles that happened inside a delivery
-        for forest in r["forests"]:
+        for forest, oi in zip(r["forests"], r["forest_ops"]):
             for e in rig.walk(forest):
                 if e["t"] in ("S", "W"):
                     if any(c["t"] in ("E", "F") for c in e["children"]):
                         ctx.count("iface-toggle-inside-delivery")
+                        ctx.count("iface-toggle-inside-delivery:" + {"rcmd": "by-the-real-Terminal", "trip": "by-the-test-double"}.get(
+                            case["ops"][oi][0], "other:" + case["ops"][oi][0]))
+        for k, v in r.get("info", {}).items():
+            ctx.count("observed:" + k, v)
+        if "topo" in case and rig.ALT_NAME in case["topo"].get("freqs", []):
+            ctx.count("topo:wireless-two-names-on-one-hz")
+            caps = dict(case["topo"]["cap"])
+            if "WIFI_2_4" in case["topo"]["freqs"] and caps.get(rig.ALT_NAME) != caps.get("WIFI_2_4"):
+                ctx.count("topo:wireless-two-names-different-capacities")
         maxdepth = max(maxdepth, d)
         ctx.count(f"depth:{min(d, 6)}")
         ctx.count("topo:" + (case["topo"]["kind"] if "topo" in case else "scenario:" + case["scenario"]["file"]))
@@ -183,8 +193,10 @@ def run(ctx: Ctx):
                           {"case": small, "oracle": orc2[:5], "lines": r2["lines"], "impl": r2["impl"], "from": name})
         else:
             q = r2["lines"][di2] if di2 < len(r2["lines"]) else "?"
+            what = ("the far interface's answer differs from C08's acceptance model (farAnswer)" if q.startswith("far ")
+                    else "link accounting differs from the proved model")
             ctx.violation({"kind": "model-vs-impl", "line": q.split()[0]},
-                          f"link accounting differs from the proved model at line {di2} ({q[:200]}): "
+                          f"{what} at line {di2} ({q[:200]}): "
                           f"impl={r2['impl'][di2] if di2 < len(r2['impl']) else None!r} model={model2[di2] if di2 < len(model2) else None!r}",
                           {"case": small, "lines": r2["lines"], "impl": r2["impl"], "model": model2, "first_diff": di2, "from": name})
     ctx.cov["max_nesting_depth"] = maxdepth
